@@ -38,7 +38,7 @@ pub fn prop() -> Prop {
          that data reproduces it with no errors. Non-trivial: the operation selects a nested list or an abstract type; \
          distinct by operation + schema + configuration + generated data.",
     )
-    .random("responses", check, |t| dev_scale(if t == Tier::Quick { 400_000 } else { 10_000_000 }), |t| if t == Tier::Quick { 900 } else { 1500 })
+    .random("responses", check, |t| dev_scale(if t == Tier::Quick { 400_000 } else { 8_000_000 }), |t| if t == Tier::Quick { 900 } else { 1500 })
     .text(check_text)
     .assumptions(&[
         "the type of a response position is the field definition of the CONCRETE object type chosen there (ExecuteSelectionSet looks the field up on objectType), which may be narrower than the interface's definition the selection was written against",
@@ -497,7 +497,6 @@ fn evaluate(case: &Case, cfg: &Config, ctx: &mut Ctx) -> Outcome {
         return Outcome::fail("C33|exec|data", format!("generated {} executed {}", want, obs.data));
     }
     ctx.class("exec:reproduced");
-    let _ = c26::render;
     Outcome::Pass
 }
 
